@@ -18,7 +18,8 @@ Extra keys beyond OBSERVATION.md (all optional for consumers):
               "init": [{"label","ty","nullable"}]    (structs) the memberwise initializer's parameters
               "init_assigns": [[lhs, rhs]]           (structs) `self.lhs = rhs` statements of the initializer
               "coding_keys": bool                    (structs) a CodingKeys enum is present
-    variant:  "decode_ty": TYPE                      (union newtype) the type handed to container.decode(...)
+    variant:  "decode_ty": TYPE                      (union newtype) the type handed to container.decode(...), as written
+                                                     (an optional payload keeps its outer opt node here)
               "wires"                                only when decode / encode disagree with the CodingKeys declaration
 """
 from .base import Cursor, ExtractError, lex, mapt, opt, prim, seq, unquote, user
@@ -190,6 +191,9 @@ class P:
                 raise ExtractError("unclosed key enum")
             c.expect("case")
             cases.extend(self.case_list(False))
+            if not (c.at("case") or c.at("}")):
+                raise ExtractError(f"unexpected `{c.text()}` after case `{cases[-1]['ident']}` of a key enum "
+                                   f"(not a valid case name?), line {c.peek()[2]}")
         c.expect("}")
         return inh, cases
 
